@@ -536,6 +536,8 @@ class FileBasedPacketSerializer(BufferedIncrementalPacketSerializer[_T_SentDTOPa
             initial: bool = True
             while True:
                 if not initial:
+                    # Always append: load_from_file() may have raised EOFError without reading up to the end of the file.
+                    buffer.seek(0, 2)
                     buffer.write((yield))
                     buffer.seek(0)
                 self.__check_file_buffer_limit(buffer)
